@@ -18,7 +18,7 @@ var specC17Index = report.Spec{Property: "C17", Check: "C17Index",
 	Rule: "histories of 2-7 insertions into one PointIndex (InsertCoord, or InsertPolygon with the pixel centres as vertices) on WebMercatorQuad ids 5..24 and NetherlandsRDNewQuad ids 5..16 (quadtree levels 17..36): a base pixel address with wide bit patterns, " +
 		"followed by addresses built to collide with it if keys were folded or truncated (the base plus k*2^32 or k*2^16 in x, y or both, with the bits of k set in the base: the value morton.ToZ returns for an oversized operand ORs bits 32..47 onto bits 16..31; the base with single high bits flipped; neighbours), and random ones. " +
 		"Model: an address outside [0, 2^level)^2 must be refused with an OutsideGridError (no panic); an address inside the grid that does not fit 32 bits (levels 33..36) must be reported - an error or the 'cannot make Z' panic - and never accepted silently, whatever was inserted before; " +
-		"every other address is accepted, and afterwards every accepted pixel is found again: a zero length line at its centre snaps to exactly that centre on the deepest level, and a pixel that was never inserted is not found. " +
+		"every other address is accepted, and afterwards every accepted pixel is found again: a zero length line at its centre snaps to exactly that centre on the deepest level, and a pixel that was never inserted is not found, nor is anything found at the positions k*2^32 pixels beyond an accepted pixel that lie outside the pixel grid (in or out of the extent). One base address in three is a corner of the address space (0 or 2^level-1 on either axis). " +
 		"Non-trivial: the history contains an address >= 2^32 or two accepted addresses that agree in their low 16 bits on both axes. Distinct by case content.",
 	Assumptions: []string{"pixel centres are computed by the harness' grid model (extent from tms20.MatrixBoundingBox)"}}
 
@@ -40,7 +40,7 @@ func genC17Index(t *rapid.T) C17IndexCase {
 	g := c.Grid.MustBuild()
 	level := g.LevelOf(c.ID)
 	size := int64(1) << level
-	c.Polygon = rapid.IntRange(0, 2).Draw(t, "polygon") == 0 && level <= 30 // (pixel centres as floats need room: 1e-10 units fixed point)
+	c.Polygon = rapid.IntRange(0, 2).Draw(t, "polygon") == 0 && level <= 32 // (the oracle reads every centre back and sets the case aside when a float cannot hold it)
 	wide := func(label string) int64 {
 		v := rapid.Int64Range(0, size-1).Draw(t, label)
 		if rapid.Bool().Draw(t, label+"High") { // set some high bits: rapid's ranges favour small values
@@ -50,6 +50,27 @@ func genC17Index(t *rapid.T) C17IndexCase {
 		return v & (size - 1)
 	}
 	base := [2]int64{wide("x"), wide("y")}
+	switch rapid.IntRange(0, 11).Draw(t, "corner") { // the corners of the address space: all ones is a key like any other
+	case 0:
+		base = [2]int64{size - 1, size - 1}
+	case 1:
+		base = [2]int64{0, size - 1}
+	case 2:
+		base = [2]int64{size - 1, 0}
+	case 3:
+		base = [2]int64{0, 0}
+	case 4, 5: // the pixels whose keys the first positions behind the last pixel would fold to
+		m := int64(rapid.IntRange(1, 3).Draw(t, "foldM"))
+		v := (m<<16 + int64(rapid.IntRange(0, 7).Draw(t, "foldK"))) & (size - 1)
+		switch rapid.IntRange(0, 2).Draw(t, "foldAxis") {
+		case 0:
+			base[0] = v
+		case 1:
+			base[1] = v
+		default:
+			base = [2]int64{v, v}
+		}
+	}
 	c.Addrs = append(c.Addrs, base)
 	n := rapid.IntRange(1, 6).Draw(t, "more")
 	for i := 0; i < n; i++ {
@@ -200,8 +221,46 @@ func oracleC17Index(c C17IndexCase) (o report.Outcome) {
 			return o
 		}
 	}
+	// positions that are no pixels at all - k*2^32 pixels beyond an accepted one, outside the pixel grid, possibly still inside the
+	// extent (the strip behind the last pixel of a grid that does not divide evenly) - hold nothing, whatever key they would fold to
+	for _, a := range order {
+		cands := [][2]int64{{a[0] + 1<<32, a[1]}, {a[0], a[1] + 1<<32}, {a[0] + 1<<32, a[1] + 1<<32}}
+		for m := int64(1); m <= 3; m++ { // positions whose key, if bits 32.. were OR-ed onto bits 16.., would be the key of a
+			unfold := func(v int64) int64 { return v&^(m<<16) + m<<32 }
+			if (a[0]>>16)&m == m {
+				cands = append(cands, [2]int64{unfold(a[0]), a[1]})
+			}
+			if (a[1]>>16)&m == m {
+				cands = append(cands, [2]int64{a[0], unfold(a[1])})
+			}
+			if (a[0]>>16)&m == m && (a[1]>>16)&m == m {
+				cands = append(cands, [2]int64{unfold(a[0]), unfold(a[1])})
+			}
+		}
+		for _, b := range cands {
+			if b[0] < size && b[1] < size {
+				continue
+			}
+			ce := lev.Centre(P{X: b[0], Y: b[1]})
+			if ce.X < a0(g.MinX) || ce.Y < a0(g.MinY) { // overflow of the fixed point arithmetic
+				continue
+			}
+			p := centre(b)
+			if lev.OutPix(p) != (P{X: b[0], Y: b[1]}) {
+				continue
+			}
+			o.Label("lookup beyond the pixel grid at an alias position")
+			got, pan := find(b)
+			if pan == nil && len(got) != 0 {
+				o.Failf([]string{"phantom"}, "position %v lies beyond the pixel grid (2^%d pixels) and holds nothing, but a zero length line there snaps to %v; accepted: %v", b, level, got, order)
+				return o
+			}
+		}
+	}
 	return o
 }
+
+func a0(v int64) int64 { return v }
 
 func asOutside(err error, target *pointindex.OutsideGridError) bool {
 	for err != nil {
